@@ -1,32 +1,35 @@
+"""Regenerates spec/MCGates_*.cfg (the TLC configurations of C07).  Run: python3 bin/lib/c07_mkcfg.py"""
 import os
-os.chdir("/verif/spec")
 def mk(name, P, A, G, cases, dk="none", di=0, invs=("Satisfied","PinnedInv","CountInv","LayoutInv"), init="InitRows", nxt="NextRows", degshift=0):
     lines = ["CONSTANT P = %d" % P, "CONSTANT ALPHA = %d" % A, "CONSTANT GEN = %d" % G, 'CONSTANT DropKind = "%s"' % dk,
              "CONSTANT DropIdx = %d" % di, "CONSTANT Cases <- %s" % cases, "CONSTANT Sel = {}", "CONSTANT DegShift = %d" % degshift, "INIT " + init, "NEXT " + nxt]
     lines += ["INVARIANT " + i for i in invs] + ["CHECK_DEADLOCK FALSE"]
     open(name + ".cfg", "w").write("\n".join(lines) + "\n")
-mk("MCGates_p17", 17, 3, 3, "Cases17")
-mk("MCGates_p5", 5, 3, 2, "Cases5")
-mk("MCGates_p5h", 5, 3, 2, "Cases5H")
-mk("MCGates_uniq", 5, 3, 2, "CasesUniq", invs=("Satisfied","UniqueInv"))
-mk("MCGates_p5t", 5, 3, 2, "Cases5T")
-mk("MCGates_p7t", 7, 5, 3, "Cases7T")
-mk("MCGates_p13t", 13, 5, 2, "Cases13T")
-mk("MCGates_p17t", 17, 3, 3, "Cases17T")
-mk("MCGates_degcat", 17, 3, 3, "CasesDeg", invs=("DegreeInv","DegreeExactInv","CatLayoutInv","Emit"), init="InitDegCat", nxt="NextDeg")
-mk("MCGates_canary_DegreeLowered", 17, 3, 3, "CasesDegCanary", invs=("DegreeInv",), init="InitDeg", nxt="NextDeg", degshift=1)
-# spec mutants: (name, P, A, G, cases, kind, idx)
-for nm, P, A, G, cases, dk, di in [
-    ("ExpoLastIntermediate", 5, 3, 2, "CasesExpo", "expo", 3),
-    ("ExpoOutput", 17, 3, 3, "CasesExpo", "expo", 4),
-    ("RaBool", 17, 3, 3, "CasesRa", "ra", 1),
-    ("RaIndex", 17, 3, 3, "CasesRa", "ra", 3),
-    ("RaClaimed", 17, 3, 3, "CasesRa", "ra", 4),
-    ("BaseSumRange", 17, 3, 3, "CasesBaseSum", "basesum", 3),
-    ("BaseSumSum", 17, 3, 3, "CasesBaseSum", "basesum", 1),
-    ("PoseidonOut", 5, 3, 2, "CasesPoseidon", "poseidon", 9),
-    ("CosetValue", 5, 3, 2, "CasesCoset", "coset", 12),
-    ("ReducingAcc", 5, 3, 2, "CasesReducing", "reducing", 2),
-    ("ArithOut", 17, 3, 3, "CasesArith", "arith", 1),
-]:
-    mk("MCGates_canary_" + nm, P, A, G, cases, dk, di, invs=("Satisfied","PinnedInv","UniqueInv") if nm in ("ExpoLastIntermediate", "BaseSumRange", "RaBool") else ("Satisfied","PinnedInv"))
+
+if __name__ == "__main__":
+    os.chdir(os.path.join(os.path.dirname(os.path.dirname(os.path.dirname(os.path.abspath(__file__)))), "spec"))
+    mk("MCGates_p17", 17, 3, 3, "Cases17")
+    mk("MCGates_p5", 5, 3, 2, "Cases5")
+    mk("MCGates_p5h", 5, 3, 2, "Cases5H")
+    mk("MCGates_uniq", 5, 3, 2, "CasesUniq", invs=("Satisfied","UniqueInv"))
+    mk("MCGates_p5t", 5, 3, 2, "Cases5T")
+    mk("MCGates_p7t", 7, 5, 3, "Cases7T")
+    mk("MCGates_p13t", 13, 5, 2, "Cases13T")
+    mk("MCGates_p17t", 17, 3, 3, "Cases17T")
+    mk("MCGates_degcat", 17, 3, 3, "CasesDeg", invs=("DegreeInv","DegreeExactInv","CatLayoutInv","Emit"), init="InitDegCat", nxt="NextDeg")
+    mk("MCGates_canary_DegreeLowered", 17, 3, 3, "CasesDegCanary", invs=("DegreeInv",), init="InitDeg", nxt="NextDeg", degshift=1)
+    # spec mutants: (name, P, A, G, cases, kind, idx)
+    for nm, P, A, G, cases, dk, di in [
+        ("ExpoLastIntermediate", 5, 3, 2, "CasesExpo", "expo", 3),
+        ("ExpoOutput", 17, 3, 3, "CasesExpo", "expo", 4),
+        ("RaBool", 17, 3, 3, "CasesRa", "ra", 1),
+        ("RaIndex", 17, 3, 3, "CasesRa", "ra", 3),
+        ("RaClaimed", 17, 3, 3, "CasesRa", "ra", 4),
+        ("BaseSumRange", 17, 3, 3, "CasesBaseSum", "basesum", 3),
+        ("BaseSumSum", 17, 3, 3, "CasesBaseSum", "basesum", 1),
+        ("PoseidonOut", 5, 3, 2, "CasesPoseidon", "poseidon", 9),
+        ("CosetValue", 5, 3, 2, "CasesCoset", "coset", 12),
+        ("ReducingAcc", 5, 3, 2, "CasesReducing", "reducing", 2),
+        ("ArithOut", 17, 3, 3, "CasesArith", "arith", 1),
+    ]:
+        mk("MCGates_canary_" + nm, P, A, G, cases, dk, di, invs=("Satisfied","PinnedInv","UniqueInv") if nm in ("ExpoLastIntermediate", "BaseSumRange", "RaBool") else ("Satisfied","PinnedInv"))
